@@ -105,9 +105,12 @@ class ResolvePortRefs(ElabPass):
             else:  # Add ultimate signal `Source`s to the group
                 group.add(conn)
 
-            # And recursively follow its connected ports
+            # And recursively follow its connected ports - those of the Instances this Module holds.
+            # Others are left-overs, and connect nothing here: an Instance replaced by a later one of the same name,
+            # or the scalar Instance that an `InstanceArray` was made of (`n * inst`).
             for connected_port in pref._connected_ports:
-                follow(connected_port, group)
+                if connected_port.inst._parent_module is module:
+                    follow(connected_port, group)
 
         # Collect groups of connected `PortRef`s
         groups: List[List[Optional[Connectable]]] = list()
